@@ -52,7 +52,11 @@ def run_files(files: list[list[dict[str, Any]]]) -> list[dict[str, Any]]:
         for f in files:
             out.extend(_work(f))
         return out
-    with ProcessPoolExecutor(max_workers=nproc) as ex:
+    # TLC runs in background threads at this point: never fork a multi-threaded process (a forked child can
+    # inherit a lock held by another thread and hang; seen once under load) -> fresh interpreter per worker
+    import multiprocessing as mp
+
+    with ProcessPoolExecutor(max_workers=nproc, mp_context=mp.get_context("forkserver")) as ex:
         for res in ex.map(_work, files, chunksize=max(1, min(8, len(files) // (nproc * 4) or 1))):
             out.extend(res)
     return out
@@ -401,6 +405,13 @@ def run(tier: str, seed: int) -> Report:
                             req_step(good[rd], [["T"]], label="Timeout")]}], "cut-by-caller-timeout")
         add_file([{"hist": [{"op": "toggle", "on": False}, cut, {"op": "toggle", "on": True}, cut]}],
                  "cut-by-caller-timeout")
+    # a long run whose database writer cannot insert for a while (slow disk, another process holding the file):
+    # the rows pile up; if the client ever waits for the writer, the run is cancelled right there
+    nstall = 700 if not thorough else 5000
+    pos_step = req_step(good[rd], pick(rd, "Pos")[1], label="Pos")
+    add_file([{"hist": [pos_step] * nstall, "stall": True}], "writer-stalled")
+    add_file([{"hist": [pos_step, req_step(good[rd], [["T"]], label="Timeout")] * (nstall // 4), "stall": True}],
+             "writer-stalled")
     probe = run_files([[{"hist": h}] for h in abort_hists])
     for h, p in zip(abort_hists, probe):
         for k in range(1, p["points"] + 1):
